@@ -5,6 +5,10 @@ import DadiVerif.Lemmas.PopOpsFoldPath
 import DadiVerif.Lemmas.PopOpsOffCorner
 import DadiVerif.Lemmas.PopOpsScrFold
 import DadiVerif.Lemmas.PopOpsSplit
+import DadiVerif.Lemmas.PopOpsMisc
+import DadiVerif.Lemmas.PopOpsMix
+import DadiVerif.Lemmas.PopOpsRedeal
+import DadiVerif.Lemmas.PopOpsFoldReorder
 /-!
 # C10 — population bookkeeping on spectra equals explicit index arithmetic, keeps labels
 
@@ -206,6 +210,54 @@ example : let S := ofArrays [2, 2, 3] (Array.replicate 12 1) (Array.replicate 12
     ∧ merge2 0 2 [1, 1, 2] = [3, 1] := by
   decide +kernel
 
+/-- **the public `combine_two_pops([p, q])` for EVERY order in which the caller lists the two populations** (ascending `[1,3]`,
+    descending `[3,1]`): the pair the list programs see — GENERATED from `tocombine = sorted([_-1 for _ in tocombine])` — is
+    (smaller − 1, larger − 1); the call is rejected exactly for invalid pairs; both orders give the same spectrum; and the
+    GENERATED label program puts, axis by axis, `ids[a]+ids[b]` (a = the SMALLER index, in that order whatever the caller wrote) on
+    axis `a`, leaves the labels below `b` where they are and moves those above `b` down by one — i.e. the label that disappears
+    is the one of the larger index, never the freshly written one. -/
+theorem C10_combine_two_public (p q : Nat) (S : FS) :
+    Gen.c2Pair p q = (min p q - 1, max p q - 1) ∧
+    (combineTwo p q S = none ↔ (p = 0 ∨ q = 0 ∨ p = q ∨ S.ndim < p ∨ S.ndim < q)) ∧
+    combineTwo q p S = combineTwo p q S ∧
+    (¬ (p = 0 ∨ q = 0 ∨ p = q ∨ S.ndim < p ∨ S.ndim < q) →
+      combineTwo p q S = some (combineTwoCore (min p q - 1) (max p q - 1) S) ∧
+      ∀ l, S.labels = some l → l.length = S.ndim →
+        ∃ l', (combineTwoCore (min p q - 1) (max p q - 1) S).labels = some l' ∧ l'.length = S.ndim - 1 ∧
+          ∀ k, k < S.ndim - 1 →
+            l'.getD k "" = if k = min p q - 1 then l.getD (min p q - 1) "" ++ "+" ++ l.getD (max p q - 1) ""
+                           else if k < max p q - 1 then l.getD k "" else l.getD (k + 1) "") := by
+  refine ⟨c2Pair_eq p q, ?_, ?_, fun hv => ⟨?_, fun l hl hlen => ?_⟩⟩
+  · unfold combineTwo; split <;> simp_all
+  · unfold combineTwo
+    rw [c2Pair_comm q p]
+    have : (q = 0 ∨ p = 0 ∨ q = p ∨ S.ndim < q ∨ S.ndim < p) ↔ (p = 0 ∨ q = 0 ∨ p = q ∨ S.ndim < p ∨ S.ndim < q) := by omega
+    simp only [this]
+  · rw [combineTwo, if_neg hv, c2Pair_eq]
+  · have hnd : S.ndim = l.length := hlen.symm
+    set a := min p q - 1 with ha
+    set b := max p q - 1 with hb
+    have hab : a < b := by omega
+    have hbl : b < l.length := by omega
+    refine ⟨Gen.c2NewIds a b l, by simp [combineTwoCore, hl], ?_, fun k hk => ?_⟩
+    · rw [c2NewIds_eq, List.length_eraseIdx, List.length_set]; simp [hbl]; omega
+    · rw [c2NewIds_eq]
+      by_cases hka : k = a
+      · rw [if_pos hka, hka, getD_eraseIdx_lt _ _ _ _ hab, getD_set_self _ _ _ _ (by omega)]
+      · rw [if_neg hka]
+        by_cases hkb : k < b
+        · rw [if_pos hkb, getD_eraseIdx_lt _ _ _ _ hkb, getD_set_ne _ _ _ _ _ (Ne.symm hka)]
+        · rw [if_neg hkb]
+          simp only [List.getD_eq_getElem?_getD]
+          rw [List.getElem?_eraseIdx_of_ge (by omega), List.getElem?_set_ne (by omega)]
+
+example : let S := ofArrays [2, 2, 3] (Array.replicate 12 1) (Array.replicate 12 false) false (some ["A", "B", "C"])
+    ¬ ((3 : Nat) = 0 ∨ (1 : Nat) = 0 ∨ (3 : Nat) = 1 ∨ S.ndim < 3 ∨ S.ndim < 1)
+    ∧ (combineTwo 3 1 S).map (fun o => (o.labels, o.shape)) = some (some ["A+C", "B"], [4, 2])
+    ∧ (combineTwo 1 3 S).map (fun o => (o.labels, o.shape)) = some (some ["A+C", "B"], [4, 2])
+    ∧ (combineTwo 3 2 S).map (fun o => (o.labels, o.shape)) = some (some ["A", "B+C"], [2, 4]) := by
+  decide +kernel
+
 /-! ## combine_pops -/
 
 /-- Iterated pairwise merging into slot `a` (in any order `rs`) equals ONE explicit re-indexing along `mergeAll a rs`
@@ -265,20 +317,27 @@ theorem C10_combine_public (tc : List Nat) (S : FS) (t0 : Nat) (rest : List Nat)
     show t0 - 1 < t - 1
     omega
   refine ⟨hrs, har, ?_⟩
-  have hcond : ((t0 :: rest).any (fun t => decide (t = 0 ∨ S.ndim < t)) || !(decide (t0 :: rest).Nodup)) = false := by
+  have hcond : ((t0 :: rest).isEmpty || (t0 :: rest).any (fun t => decide (t = 0 ∨ S.ndim < t)) || !(decide (t0 :: rest).Nodup)) = false := by
     have h1 : (t0 :: rest).any (fun t => decide (t = 0 ∨ S.ndim < t)) = false := by
       rw [List.any_eq_false]; intro t ht
       have := hv' t ht; simp; omega
     have h2 : (t0 :: rest).Nodup := by rw [← hs]; exact hperm.nodup_iff.2 hn
     rw [h1]; simp [h2]
-  have hiter : rest.reverse.foldl (fun acc r => combineTwoCore (t0 - 1) (r - 1) acc) S = combineIter a rs S := by
+  -- the chain of pairs GENERATED from the loop of `combine_pops`, each normalised by the GENERATED `c2Pair`, is the iteration
+  have hiter : (Gen.cpPairs sortAsc (t0 :: rest)).foldl
+        (fun acc pr => combineTwoCore (Gen.c2Pair pr.1 pr.2).1 (Gen.c2Pair pr.1 pr.2).2 acc) S = combineIter a rs S := by
+    rw [cpPairs_cons]
     show _ = (rest.reverse.map (· - 1)).foldl (fun acc r => combineTwoCore (t0 - 1) r acc) S
-    rw [List.foldl_map]
-  refine ⟨_, by simp only [combinePops, hs, hcond]; rfl, ?_, ?_, ?_, ?_⟩
-  · show (rest.reverse.foldl _ S).shape = _; rw [hiter]
-  · show (rest.reverse.foldl _ S).dat = _; rw [hiter]
-  · show (rest.reverse.foldl _ S).msk = _; rw [hiter]
-  · simp only [hiter]
+    rw [List.foldl_map, List.foldl_map]
+    refine foldl_c2Pair t0 rest.reverse (fun r hr => ?_) S
+    rw [List.mem_reverse] at hr
+    rw [List.pairwise_cons] at hasc
+    exact hasc.1 r hr
+  refine ⟨_, by simp only [combinePops, cpOrder_eq, hs, hcond]; rfl, ?_, ?_, ?_, ?_⟩
+  · show (List.foldl _ S _).shape = _; rw [hiter]
+  · show (List.foldl _ S _).dat = _; rw [hiter]
+  · show (List.foldl _ S _).msk = _; rw [hiter]
+  · simp only [hiter, cpLabelSlot_cons, cpLabelSrc_eq, cpLabelSep_eq]
     rw [combineIter_labels]
     cases hl : S.labels with
     | none => rfl
@@ -292,6 +351,23 @@ example : let S := ofArrays [2, 3, 2, 2] (Array.replicate 24 1) (Array.replicate
     ∧ (combinePops [4, 1, 3] S).map (fun o => (o.labels, o.shape, o.msk [1, 1])) = some (some ["w+y+z", "x"], [4, 3], false)
     ∧ mergeAll 0 [3, 2] [1, 2, 1, 1] = [3, 2] := by
   decide +kernel
+
+/-- **…for EVERY order in which the caller lists the merge set** (ascending, descending, unsorted — the docstring says "unordered
+    set"): `combine_pops` depends on `tocombine` only through the GENERATED `cpOrder` (= `sorted(tocombine)`), so two listings of the
+    same populations give the same spectrum, labels included; with `C10_combine_public` the joined label sits on the axis of the
+    SMALLEST population number and lists the merged labels in index order, whatever the caller wrote. -/
+theorem C10_combine_public_order (tc tc' : List Nat) (S : FS) (h : tc.Perm tc') :
+    Gen.cpOrder sortAsc tc = sortAsc tc ∧ combinePops tc S = combinePops tc' S := by
+  refine ⟨rfl, ?_⟩
+  have e : Gen.cpOrder sortAsc tc = Gen.cpOrder sortAsc tc' := by rw [cpOrder_eq, cpOrder_eq, sortAsc_eq_of_perm h]
+  unfold combinePops
+  rw [e]
+
+example : let S := ofArrays [2, 3, 2, 2] (Array.replicate 24 1) (Array.replicate 24 false) false (some ["w", "x", "y", "z"])
+    ([4, 1, 3] : List Nat).Perm [3, 4, 1]
+    ∧ (combinePops [3, 4, 1] S).map (fun o => (o.labels, o.shape)) = some (some ["w+y+z", "x"], [4, 3])
+    ∧ (combinePops [4, 2] S).map (fun o => (o.labels, o.shape)) = some (some ["w", "x+z", "y"], [2, 4, 2]) := by
+  refine ⟨by decide, by decide +kernel, by decide +kernel⟩
 
 /-! ## scramble_pop_ids -/
 
@@ -350,6 +426,22 @@ theorem C10_misc_agrees (v0 v1 v2 : Nat) :
   simp only [Gen.miscRows, List.mem_cons, List.mem_nil_iff, or_false] at hr
   rcases hr with rfl | rfl | rfl | rfl <;> simp at hidx <;> obtain ⟨rfl, rfl⟩ := hidx <;>
     simp [miscDst, miscSrc, miscCanonical, merge2, Gen.c2NewIndex, sumAt]
+
+/-- **every pair of the 3-population branch, semantically** — also `idx = [1, 2]`, whose loop nest reads the source through a
+    3-cycle (a permutation that is not its own inverse; using the inverse there merges the wrong populations): for a 3-population
+    spectrum and each of `[0,1]`, `[0,2]`, `[1,2]` the branch of the GENERATED table that `Misc.combine_pops` dispatches to returns
+    `out[j] = Σ_{i : canonical a b i = j} fs[i]` — ONE explicit re-indexing "merge axes a and b (the same `merge2` as
+    `combine_two_pops`), merged axis first" — with extents (n_a+n_b+1, n_rest+1), corners masked, unfolded, unlabelled. -/
+theorem C10_misc_pairs (S : FS) (s0 s1 s2 : Nat) (hsh : S.shape = [s0, s1, s2]) (h0 : 1 ≤ s0) (h1 : 1 ≤ s1) (h2 : 1 ≤ s2)
+    (a b : Nat) (hab : a < b) (hb : b < 3) :
+    ∃ out, miscCombine Gen.miscRows [a, b] S = some out ∧
+      out.shape = miscShape a b S.shape ∧
+      (∀ j, out.dat j = pushL S.box (miscCanonical a b) S.dat j) ∧
+      out.msk = isCorner out.shape ∧ out.folded = false ∧ out.labels = none :=
+  miscCombine_pairs S s0 s1 s2 hsh h0 h1 h2 a b hab hb
+
+example : miscShape 1 2 [3, 4, 5] = [8, 3] ∧ miscShape 0 2 [3, 4, 5] = [7, 4] ∧ miscShape 0 1 [3, 4, 5] = [6, 5]
+    ∧ miscCanonical 1 2 [2, 3, 4] = [7, 2] ∧ miscCanonical 0 2 [2, 3, 4] = [6, 3] := by decide
 
 /-! ## folding -/
 
@@ -614,6 +706,92 @@ theorem C10_project_merged_not_commuting :
   rw [projW_eq_hyp (1 + 1) 1 (1 + 0) 1 (by decide) (by decide)]
   exact hyp_split_counterexample.1
 
+/-! ## projection of the merged population and of the scrambled spectrum — n-D statements (round 5) -/
+
+/-- **(3c) lifted to n-D spectra.**  For a spectrum of any dimension without masked entries and two populations a < b:
+    projecting the MERGED population of `combine_two_pops` to `M` (`projectAxis a M (combineTwoCore a b S)`) equals, at EVERY cell of
+    the box of the result, the hypergeometric mixture over the splits M = ma + (M − ma) — weights
+    `hyp na (na+nb) M ma` = C(n_a,ma)·C(n_b,M−ma)/C(n_a+n_b,M) — of `splitTerm a b ma (M−ma) S` = "project population a to ma and
+    population b to M − ma (`projectAxis`), then merge (`combineTwoCore`)".  All terms have the shape of the left-hand side, and on
+    both sides and in every term exactly the two corners are masked.  (Fibre sums of the merge over boxes whose extents differ
+    from split to split, `pushL_merge2_eq`; the weight identity `C10_project_merged_split` applied entry-wise, `mix_kernel`.) -/
+theorem C10_project_merged_mixture (a b M : Nat) (S : FS) (hc : Clean S) (hab : a < b) (hb : b < S.ndim)
+    (hM : M ≤ (S.shape.getD a 0 - 1) + (S.shape.getD b 0 - 1)) :
+    (projectAxis a M (combineTwoCore a b S)).shape = (mergeShape a b S.shape).set a (M + 1) ∧
+    (∀ ma, ma ≤ M → (splitTerm a b ma (M - ma) S).shape = (mergeShape a b S.shape).set a (M + 1)) ∧
+    ∀ j ∈ boxIdx ((mergeShape a b S.shape).set a (M + 1)),
+      (projectAxis a M (combineTwoCore a b S)).msk j = isCorner ((mergeShape a b S.shape).set a (M + 1)) j ∧
+      (∀ ma, ma ≤ M → (splitTerm a b ma (M - ma) S).msk j = isCorner ((mergeShape a b S.shape).set a (M + 1)) j) ∧
+      (projectAxis a M (combineTwoCore a b S)).dat j
+        = ∑ ma ∈ Finset.range (M + 1), hyp (S.shape.getD a 0 - 1) ((S.shape.getD a 0 - 1) + (S.shape.getD b 0 - 1)) M ma *
+            (splitTerm a b ma (M - ma) S).dat j :=
+  projectAxis_combineTwo_mixture a b M S hc hab hb hM
+
+example : let S := ofArrays [3, 2, 3] (Array.replicate 18 1) (Array.replicate 18 false) false none
+    Clean S ∧ (0 : Nat) < 2 ∧ 2 < S.ndim ∧ 3 ≤ (S.shape.getD 0 0 - 1) + (S.shape.getD 2 0 - 1)
+    ∧ (mergeShape 0 2 S.shape).set 0 (3 + 1) = [4, 2] ∧ [2, 1] ∈ boxIdx [4, 2]
+    ∧ (splitTerm 0 2 1 2 S).shape = [4, 2] ∧ (splitTerm 0 2 2 1 S).shape = [4, 2] := by
+  refine ⟨⟨by decide, by decide +kernel⟩, by decide, by decide, by decide, by decide, by decide, by decide, by decide⟩
+
+/-- …and in the form the driver evaluates (K op `mixsplit`): the projected merged spectrum is observationally the model's
+    `mixSplit a b M S` = Σ_ma `splitW na nb M ma` · `splitTerm a b ma (M−ma) S`, corners masked. -/
+theorem C10_project_merged_mixture_model (a b M : Nat) (S : FS) (hc : Clean S) (hab : a < b) (hb : b < S.ndim)
+    (hM : M ≤ (S.shape.getD a 0 - 1) + (S.shape.getD b 0 - 1)) :
+    Obs (projectAxis a M (combineTwoCore a b S)) (mixSplit a b M S) ∧
+    ∀ ma, ma ≤ M → splitW (S.shape.getD a 0 - 1) (S.shape.getD b 0 - 1) M ma
+      = hyp (S.shape.getD a 0 - 1) ((S.shape.getD a 0 - 1) + (S.shape.getD b 0 - 1)) M ma :=
+  ⟨mixSplit_obs a b M S hc hab hb hM, fun ma hma => splitW_eq _ _ _ _ hma⟩
+
+example : let S := ofArrays [3, 2, 3] (Array.replicate 18 1) (Array.replicate 18 false) false none
+    Clean S ∧ (0 : Nat) < 2 ∧ 2 < S.ndim ∧ 3 ≤ (S.shape.getD 0 0 - 1) + (S.shape.getD 2 0 - 1) ∧ (mixSplit 0 2 3 S).shape = [4, 2] := by
+  refine ⟨⟨by decide, by decide +kernel⟩, by decide, by decide, by decide, by decide⟩
+
+/-- **scramble_pop_ids vs projection, the form that is true, any number of populations**:
+    `project(scramble U) = re-deal(project(pool U))`.  For every spectrum without empty axes (any mask — masked entries count 0 in the
+    pool, as in the code) and every admissible list of sizes `ms`, the loop of `Spectrum.project` applied to the scrambled spectrum
+    gives shape `ms+1` and at EVERY cell `c` the multivariate hypergeometric weight Π C(m_l,c_l)/C(Σms,Σc) (`hypW ms c`) times the
+    POOLED one-dimensional spectrum (`poolFS S`, entry t = Σ_{Σi=t} fs[i]) projected by `_project_one_axis` to Σ ms, read at Σ c.
+    (One axis at a time: `redeal_step` — a shifted Vandermonde — and composition of 1-D projections.) -/
+theorem C10_project_scramble (mc : Bool) (S : FS) (hpos : ∀ s ∈ S.shape, 1 ≤ s) (ms : List Nat) (hadm : AdmSizes ms S.shape) :
+    (projectCore ms (scrambleCore mc S)).shape = ms.map (· + 1) ∧
+    ∀ c ∈ boxIdx (ms.map (· + 1)),
+      (projectCore ms (scrambleCore mc S)).dat c = hypW ms c * (projectAxis 0 ms.sum (poolFS S)).dat [c.sum] ∧
+      (projectCore ms (scrambleCore mc S)).msk c = (mc && isCorner (ms.map (· + 1)) c) := by
+  obtain ⟨h1, h2⟩ := projectCore_scramble mc S hpos ms hadm
+  refine ⟨h1, fun c hc => ⟨h2 c hc, ?_⟩⟩
+  have := projectCore_scramble_msk mc S hpos ms hadm c (by rw [h1]; exact hc)
+  rwa [h1] at this
+
+/-- …and for the public functions `fs.scramble_pop_ids(mask_corners).project(ns)` on an unfolded spectrum: succeeds, unfolded,
+    unlabelled, the two corners masked iff `mask_corners`, data as above. -/
+theorem C10_project_scramble_public (mc : Bool) (S : FS) (hf : S.folded = false) (hpos : ∀ s ∈ S.shape, 1 ≤ s) (ms : List Nat)
+    (hadm : AdmSizes ms S.shape) :
+    ∃ A, project ms (scramble mc S) = some A ∧ A.shape = ms.map (· + 1) ∧ A.folded = false ∧ A.labels = none ∧
+      ∀ c ∈ boxIdx (ms.map (· + 1)),
+        A.msk c = (mc && isCorner (ms.map (· + 1)) c) ∧
+        A.dat c = hypW ms c * (projectAxis 0 ms.sum (poolFS S)).dat [c.sum] :=
+  project_scramble_public mc S hf hpos ms hadm
+
+example : let S := ofArrays [3, 2, 3] (Array.replicate 18 1) (Array.replicate 18 false) false none
+    S.folded = false ∧ (∀ s ∈ S.shape, 1 ≤ s) ∧ AdmSizes [1, 1, 2] S.shape ∧ [1, 0, 2] ∈ boxIdx ([1, 1, 2].map (· + 1))
+    ∧ (poolFS S).shape = [6] := by
+  refine ⟨rfl, by decide, ?_, by decide, by decide⟩
+  exact List.Forall₂.cons (by decide) (List.Forall₂.cons (by decide) (List.Forall₂.cons (by decide) List.Forall₂.nil))
+
+/-- …in the form the driver evaluates (K op `projscr`): observationally the model's `redealProj mc ms S` -/
+theorem C10_project_scramble_model (mc : Bool) (S : FS) (hpos : ∀ s ∈ S.shape, 1 ≤ s) (ms : List Nat) (hadm : AdmSizes ms S.shape) :
+    Obs (projectCore ms (scrambleCore mc S)) (redealProj mc ms S) :=
+  redealProj_obs mc S hpos ms hadm
+
+example : (∀ s ∈ ([3, 2, 3] : List Nat), 1 ≤ s) ∧ AdmSizes [1, 1, 2] [3, 2, 3] := by
+  refine ⟨by decide, ?_⟩
+  exact List.Forall₂.cons (by decide) (List.Forall₂.cons (by decide) (List.Forall₂.cons (by decide) List.Forall₂.nil))
+
+/-- …whereas `scramble` and `project` do NOT commute literally: for sample sizes (1,1) projected to (1,0) the re-deal weight of
+    the cell (1,0) is 1/2 before the projection (two populations share the pooled allele) and 1 after it (one population left). -/
+theorem C10_project_scramble_not_commuting : hypW [1, 1] [1, 0] = 1 / 2 ∧ hypW [1, 0] [1, 0] = 1 := by
+  constructor <;> rw [hypW_eq] <;> norm_num [prodN, Nat.choose]
+
 /-! ## masks (round 4) -/
 
 /-- **the mask of iterated `combine_two_pops`, both directions**: after at least one merge a result cell is masked IF AND ONLY IF
@@ -653,6 +831,64 @@ theorem C10_commute_fold_scramble (mc : Bool) (S : FS) (sh : List Nat) (x : Idx 
   ⟨rfl, fold_scramble_sym sh x j hj⟩
 
 example : [1, 2] ∈ boxIdx [2, 4] := by decide
+
+/-! ## folded input of the commutations with `project` (round 5) -/
+
+/-- **the observation relation for FOLDED spectra.**  `ObsF S T`: same shape, same mask on the box, and the same data at every
+    entry whose mask bit equals its folded-out bit — the unmasked folded-in entries AND the masked folded-out entries, i.e. exactly
+    the data `unfold` reads (`newdata = (data + reversed(data))/2`).  `unfold` maps `ObsF` to `Obs`, `fold` maps `Obs` to `ObsF`
+    (folded-out entries of a fold are exactly 0), hence `project` on folded input (`unfold → loop → fold`) respects `ObsF`. -/
+theorem C10_obsF_unfold_fold (S T : FS) :
+    (ObsF S T → Obs (unfoldCore S) (unfoldCore T)) ∧ (Obs S T → ObsF (foldCore S) (foldCore T)) ∧
+    (∀ ms, S.folded = true → T.folded = true → ObsF S T →
+      (project ms S = none ∧ project ms T = none) ∨ ∃ A B, project ms S = some A ∧ project ms T = some B ∧ ObsF A B) :=
+  ⟨obsF_unfoldCore, obs_foldCore, fun ms hS hT h => obsF_project ms hS hT h⟩
+
+/-- **plain `Obs` is NOT enough** (the counterexample): `foldedWitness 0` and `foldedWitness 7` — one population, n = 3, mask =
+    corner and folded-out entries, one unit at count 1, and 0 resp. 7 UNDER the folded-out mask at count 2 — are observationally
+    equal (same mask, same data at every unmasked entry), but their unfoldings differ at the UNMASKED entry 1 (1/2 vs 4); they are
+    not `ObsF`-related.  So the commutations with `project` on folded input can only be stated under `ObsF`. -/
+theorem C10_obs_not_congruence_for_unfold :
+    Obs (foldedWitness 0) (foldedWitness 7) ∧ ¬ Obs (unfoldCore (foldedWitness 0)) (unfoldCore (foldedWitness 7)) ∧
+    ¬ ObsF (foldedWitness 0) (foldedWitness 7) := obs_not_congr_unfold
+
+/-- `unfold ∘ fold` is observationally the identity on a mirror-symmetric spectrum with masked corners — what `unfold` returns and
+    what one-axis sums, projections (`hyp_mirror`) and corner masking preserve. -/
+theorem C10_unfold_fold_symmetric (Z : FS) (hs : Sym Z) (hcm : CornersMasked Z) : Obs (unfoldCore (foldCore Z)) Z :=
+  unfold_fold_sym Z hs hcm
+
+example : let Z := unfoldCore (foldCore (ofArrays [3, 2] #[1, 2, 3, 4, 5, 6] (Array.replicate 6 false) false none))
+    (∀ s ∈ Z.shape, 1 ≤ s) ∧ Z.msk [0, 0] = true ∧ Z.msk [2, 1] = true ∧ Z.msk [1, 0] = false := by
+  refine ⟨by decide, by decide +kernel, by decide +kernel, by decide +kernel⟩
+
+/-- **marginalize ∘ project = project ∘ marginalize on FOLDED input** (public functions, end to end: each side unfolds, runs its
+    loop, masks the corners, folds — twice): for a folded spectrum with the standard mask (folded-out entries and the two corners),
+    every duplicate-free `over` that leaves a population and all admissible sizes, both sides succeed and are `ObsF`-equal, with
+    the same labels, both folded. -/
+theorem C10_commute_project_marginalize_folded (over ms : List Nat) (F : FS) (hf : F.folded = true) (hpos : ∀ s ∈ F.shape, 1 ≤ s)
+    (hmask : ∀ i ∈ F.box, F.msk i = (foldedOut F.shape i || isCorner F.shape i))
+    (hn : over.Nodup) (hv : ∀ k ∈ over, k < F.ndim) (hl : over.length < F.ndim) (hadm : AdmSizes ms F.shape) :
+    ∃ A B, (project ms F).bind (marginalize over true) = some A ∧
+      (marginalize over true F).bind (project (dropSet over 0 ms)) = some B ∧
+      ObsF A B ∧ A.labels = B.labels ∧ A.folded = true ∧ B.folded = true :=
+  marginalize_project_folded over ms F hf hpos hmask hn hv hl hadm
+
+example : let F := foldCore (ofArrays [2, 3, 2] #[1, 2, 3, 4, 5, 6, 7, 8, 9, 10, 11, 12] (Array.replicate 12 false) false (some ["a", "b", "c"]))
+    F.folded = true ∧ (∀ s ∈ F.shape, 1 ≤ s) ∧ (∀ i ∈ F.box, F.msk i = (foldedOut F.shape i || isCorner F.shape i))
+    ∧ ([0, 2] : List Nat).Nodup ∧ (∀ k ∈ ([0, 2] : List Nat), k < F.ndim) ∧ ([0, 2] : List Nat).length < F.ndim := by
+  refine ⟨rfl, by decide, by decide +kernel, by decide, by decide, by decide⟩
+
+/-- **reorder_pops ∘ project = project ∘ reorder_pops on FOLDED input**, ANY mask (a permutation of the axes is a bijection of
+    the boxes that commutes with the mirror, so it commutes with `fold` and `unfold` entry by entry): `ObsF`, labels, both folded. -/
+theorem C10_commute_project_reorder_folded (neworder ms : List Nat) (F : FS) (hf : F.folded = true)
+    (hno : sortAsc neworder = (List.range F.ndim).map (· + 1)) (hadm : AdmSizes ms F.shape) :
+    ∃ A B, (project ms F).bind (reorderPops neworder) = some A ∧
+      (reorderPops neworder F).bind (project (permIdx 0 (neworder.map (· - 1)) ms)) = some B ∧
+      ObsF A B ∧ A.labels = B.labels ∧ A.folded = true ∧ B.folded = true :=
+  reorder_project_folded neworder ms F hf hno hadm
+
+example : let F := foldCore (ofArrays [2, 3, 4] (Array.replicate 24 1) (Array.replicate 24 false) false (some ["a", "b", "c"]))
+    F.folded = true ∧ sortAsc [3, 1, 2] = (List.range F.ndim).map (· + 1) := by decide
 
 /-! ## the two obligations that the generated wiring must meet (they fail while the defect is in the source) -/
 
